@@ -424,3 +424,53 @@ Definition w_shadow : list tok :=
    TIdent w_fn; TAssign; TLParen; TIdent w_vx; TArrow; TLParen; TIdent w_vy; TArrow; TIdent w_vx; TPlus; TIdent w_vy; TRParen;
      TLParen; TVal (w_num 1); TRParen; TRParen; TSemi;
    TIdent w_fn; TLParen; TVal (w_num 5); TRParen].
+
+(* ------------------------------------------------------------------ references to user-defined functions
+   `f(params) = body` enters a LAMBDA in the table; an identifier compiled while f names that lambda carries it, and a
+   call through the identifier is a call of THAT lambda - under any later table (f defined again) and in any argument
+   frame (a caller, or a caller's caller, with a parameter named f, whatever was passed for it). *)
+Section FunctionReferences.
+Variable ord : bool.
+Variable cp : comm -> Z.
+
+Lemma compile_define_fun n tbl ps f d0 params body c :
+  compile ord cp n tbl ps (OBin KLambda (match params with Some p => p | None => OPlug end) (Some body)) = Ok c ->
+  compile ord cp (S n) tbl ps (OBin KDefine (OBin KCall (OIdent f d0) params) (Some body)) =
+  Ok (mkC (OValue VVoid) true ((f, c_op c) :: c_tbl c)).
+Proof. intros H. cbn [Expr.compile]. rewrite H. reflexivity. Qed.
+
+Lemma compiled_lambda_is_lambda n tbl ps l body c :
+  compile ord cp n tbl ps (OBin KLambda l (Some body)) = Ok c ->
+  exists body', c_op c = OBin KLambda l (Some body').
+Proof.
+  destruct n as [|n]; [discriminate|]. rewrite compile_lambda_eq.
+  destruct (param_names n (Some l)) as [names|e]; [|discriminate]. cbn [bind].
+  destruct (compile ord cp n tbl (names ++ ps) body) as [c0|e]; [|discriminate]. cbn [bind].
+  destruct (c_changed c0); intros H; injection H as <-; eexists; reflexivity.
+Qed.
+
+Lemma find_def_lambda n tbl sc l b : find_def ord cp (S n) tbl sc (OBin KLambda l b) = Ok (OBin KLambda l b).
+Proof. reflexivity. Qed.
+
+Lemma find_def_bound_ident n tbl sc s l b :
+  find_def ord cp (S (S n)) tbl sc (OIdent s (Some (OBin KLambda l b))) = Ok (OBin KLambda l b).
+Proof. reflexivity. Qed.
+
+Lemma call_through_bound_ident n tbl sc s l b a :
+  calc ord cp (S (S (S n))) tbl sc (OBin KCall (OIdent s (Some (OBin KLambda l b))) a) =
+  calc ord cp (S (S (S n))) tbl sc (OBin KCall (OBin KLambda l b) a).
+Proof. reflexivity. Qed.
+
+Lemma function_reference_bound n m tbl ps s l b tbl2 sc :
+  in_names s ps = false -> builtin_of s = None -> lookup s tbl = Some (OBin KLambda l b) ->
+  exists t, compile ord cp (S n) tbl ps (OIdent s None) = Ok (mkC t true tbl) /\
+            find_def ord cp (S (S m)) tbl2 sc t = Ok (OBin KLambda l b) /\
+            forall a, calc ord cp (S (S (S m))) tbl2 sc (OBin KCall t a) =
+                      calc ord cp (S (S (S m))) tbl2 sc (OBin KCall (OBin KLambda l b) a).
+Proof.
+  intros H1 H2 H3. exists (OIdent s (Some (OBin KLambda l b))). split.
+  - apply compile_ident_found; assumption.
+  - split; [apply find_def_bound_ident|intros a; apply call_through_bound_ident].
+Qed.
+
+End FunctionReferences.
